@@ -34,7 +34,6 @@ package bufmodule
 //@ trusted func bufcas.NewDigestForContent(reader, options) (r, err)
 //@   modifies heap
 //@   ensures err == nil ==> r != nil
-//@ trusted func NewDigest(digestType, bufcasDigest) (r, err)
 //
 // C08 / C02: the published b5 construction: SHAKE256 over the files digest followed by the SORTED strings of the
 // dependency digests (all of type b5), joined by newlines. Checked at the point the content is handed to the hash.
